@@ -102,6 +102,14 @@ def alpha(val, top=False):
     return ["?" + repr(val)[:30]]
 
 
+def opname_of(ops):
+    """the operationName member of the body: "named" (= "Op"), "null" (JSON null), "absent", or what else was sent"""
+    if "operationName" not in ops:
+        return "absent"
+    v = ops["operationName"]
+    return "named" if v == "Op" else ("null" if v is None else "other:" + repr(v)[:20])
+
+
 def parse_multipart(content_type, body):
     b = content_type.split("boundary=")[1].strip().strip('"').encode()
     parts = {}
@@ -139,7 +147,8 @@ def abstract_request(req: httpx.Request):
         out["map"] = [mp.get(k, ["?missing"]) for k in fkeys] if sorted(mp) == sorted(fkeys) else [["?map_keys:" + ",".join(sorted(mp))]]
         out["body_keys"] = sorted(ops)
         out["vars"] = alpha(ops.get("variables"), top=True)
-        out["query_ok"] = ops.get("query") == QUERY and ops.get("operationName") == "Op"
+        out["query_ok"] = ops.get("query") == QUERY
+        out["opname"] = opname_of(ops)
     else:
         try:
             ops = json.loads(body)
@@ -149,7 +158,8 @@ def abstract_request(req: httpx.Request):
                    files=[], map=[])
         out["body_keys"] = sorted(ops) if isinstance(ops, dict) else ["?"]
         out["vars"] = alpha(ops.get("variables"), top=True) if isinstance(ops, dict) else ["?"]
-        out["query_ok"] = isinstance(ops, dict) and ops.get("query") == QUERY and ops.get("operationName") == "Op"
+        out["query_ok"] = isinstance(ops, dict) and ops.get("query") == QUERY
+        out["opname"] = opname_of(ops) if isinstance(ops, dict) else "other"
     if ct == "application/custom+json":
         out["ctype"] = "caller"
     out["timeout"] = (req.extensions.get("timeout") or {}).get("read")
@@ -203,7 +213,12 @@ def main():
             kw["timeout"] = 3.5
         rec = {"tree": case["tree"]}
         try:
-            r = client.execute(query=QUERY, operation_name="Op", variables=variables, **kw)
+            if case.get("opname") == "omitted":
+                r = client.execute(query=QUERY, variables=variables, **kw)
+            elif case.get("opname") == "none":
+                r = client.execute(query=QUERY, operation_name=None, variables=variables, **kw)
+            else:
+                r = client.execute(query=QUERY, operation_name="Op", variables=variables, **kw)
             if is_async:
                 r = loop.run_until_complete(r)
             rec["requests"] = len(captured)
